@@ -80,7 +80,7 @@ impl Pattern {
     /// Allows to specify case sensitivity
     pub fn regex_with(pattern: &str, opts: &PatternOpts) -> Result<Pattern, PatternError> {
         let pattern = pattern.trim_start_matches('^');
-        let pattern = pattern.trim_end_matches('$');
+        let pattern = Self::trim_end_anchors(pattern);
         let pattern = pattern.to_string();
 
         let anchored_regex = "^".to_string() + &pattern + "$";
@@ -99,6 +99,19 @@ impl Pattern {
                 cause: e.to_string(),
             }),
         }
+    }
+
+    /// Removes the trailing `$` anchors, but not an escaped `\$` which stands for a literal dollar sign
+    fn trim_end_anchors(pattern: &str) -> &str {
+        let mut pattern = pattern;
+        while let Some(rest) = pattern.strip_suffix('$') {
+            let backslashes = rest.chars().rev().take_while(|&c| c == '\\').count();
+            if backslashes % 2 == 1 {
+                break;
+            }
+            pattern = rest;
+        }
+        pattern
     }
 
     /// Creates a `Pattern` that matches literal string. Case insensitive.
